@@ -900,6 +900,16 @@ def name_program(pid, cfg, names, lookups=None, origin="names"):
     return {"id": pid, "cfg": cfg, "ops": ops, "origin": origin}
 
 
+def alias_fold_batches():
+    """lookups that spell an entry's 8.3 alias with characters whose upper-case form is ASCII (U+FB01 'fi' ligature -> FI, U+0131 dotless i
+    -> I, U+017F long s -> S): the alias is matched ignoring case like the long name is (Unicode-aware when the feature is on)"""
+    names = ["Fine Long Name.txt", "Sister Ship Log.dat", "island hopping notes.md"]
+    lookups = [("open", "\ufb01nelo~1.txt"), ("open", "F\u0131nelo~1.TXT"), ("open", "\u017fister~1.dat"), ("open", "SI\u017fTER~1.DAT"), ("open", "\u0131sland~1.md"),
+               ("open", "finelo~1.txt"), ("open", "FINELO~2.TXT"), ("create_file", "\ufb01nelo~1.txt"), ("rename", ("island hopping notes.md", "\u017fister~1.dat")),
+               ("open", "\ufb01ne long name.txt"), ("open", "\u017fi\u017fter ship log.dat")]
+    return [(names, lookups)]
+
+
 def overlong_fold_batches():
     """names that are too long (more than 255 bytes in UTF-8) or hold an illegal character, but whose upper-case form is the upper-case form
     of a valid name already in the directory: the name is invalid whatever the directory holds (validation does not depend on a lookup)"""
@@ -2092,6 +2102,36 @@ def stale_dir_program(rng, pid, cs):
         ops.append({"op": "remove", "at": "", "path": "d/entry number %d.txt" % i})
     ops += [{"op": "list", "at": "", "path": "d"}, {"op": "remove", "at": "", "path": "d"}, {"op": "list", "at": "", "path": ""}, {"op": "unmount"}]
     return {"id": pid, "cfg": {"vol": vol}, "ops": ops, "origin": "ns:stale-dir"}
+
+
+def fault_wrap_program(pid, cfg, cs):
+    """a second fixed history for C09: the tail of a small volume is full, clusters in front of the next-free hint are free, so an
+    allocation runs its search to the end of the table, wraps around and searches the beginning; plus a status query in mid-session"""
+    ops = [{"op": "create_file", "at": "", "path": "a.bin", "as": "a"}, {"op": "write_all", "h": "a", "pat": 1, "len": 2 * cs}, {"op": "close", "h": "a"},
+           {"op": "create_file", "at": "", "path": "fill.bin", "as": "f"}, {"op": "write_all", "h": "f", "pat": 2, "len": 400 * cs}, {"op": "close", "h": "f"},
+           {"op": "remove", "at": "", "path": "a.bin"},
+           {"op": "create_file", "at": "", "path": "f.bin", "as": "g"}, {"op": "write_all", "h": "g", "pat": 3, "len": cs}, {"op": "close", "h": "g"},
+           {"op": "remove", "at": "", "path": "f.bin"},
+           {"op": "create_file", "at": "", "path": "g.bin", "as": "h"}, {"op": "write_all", "h": "h", "pat": 4, "len": 2 * cs}, {"op": "status"}, {"op": "close", "h": "h"},
+           {"op": "create_dir", "at": "", "path": "late dir"}, {"op": "stats"}, {"op": "unmount"}]
+    return {"id": pid, "cfg": cfg, "ops": ops, "origin": "fixed:fault-wrap"}
+
+
+def root_tail_program(rng, pid):
+    """a fixed root directory whose last sector is only partly the root's (40 entries of 32 bytes = 2.5 sectors): a file in the first data
+    clusters stays what was written while the root fills up to its last entry, and the root's last entries stay what they are while the
+    file is rewritten"""
+    cfg = K("K2")
+    cs = 1024
+    ops = [{"op": "create_file", "at": "", "path": "BIG.BIN", "as": "b"}, {"op": "write_all", "h": "b", "pat": 5, "len": 2 * cs + 7}, {"op": "flush", "h": "b"}]
+    for i in range(19):
+        ops.append({"op": "create_file", "at": "", "path": "S%02d.TXT" % i})
+        if i % 4 == 3 or i >= 14:
+            ops += [{"op": "seek", "h": "b", "from": "start", "off": 0}, {"op": "read_all", "h": "b", "len": 3 * cs}]
+    ops += [{"op": "seek", "h": "b", "from": "start", "off": rng.choice([0, 5, 512])}, {"op": "write_all", "h": "b", "pat": 6, "len": cs}, {"op": "flush", "h": "b"},
+            {"op": "list", "at": "", "path": ""}, {"op": "close", "h": "b"}, {"op": "unmount"}, {"op": "list", "at": "", "path": ""},
+            {"op": "open_file", "at": "", "path": "BIG.BIN", "as": "r"}, {"op": "read_all", "h": "r", "len": 3 * cs}, {"op": "close", "h": "r"}, {"op": "unmount"}]
+    return {"id": pid, "cfg": cfg, "ops": ops, "origin": "io:root-tail"}
 
 
 def with_remounts(prog, rng, k=2):
